@@ -1,4 +1,4 @@
 #!/bin/bash
 # usage: confirm_all.sh C01 C02 ...   -> runs tools/confirm_seed.sh for every change, 6 in parallel
-for p in "$@"; do for k in 1 2 3 4 5 6 7 8 9; do [ -f ${SEEDROOT:-/tmp/seed}/$p/out/change_$k/patch.diff ] && [ ! -f ${SEEDROOT:-/tmp/seed}/$p/out/change_$k/confirm.json ] && echo "$p $k"; done; done | xargs -P 6 -L 1 /verif/tools/confirm_seed.sh > /tmp/confirm_$$.log 2>&1
+for p in "$@"; do for k in 1 2 3 4 5 6 7 8 9 10 11 12; do [ -f ${SEEDROOT:-/tmp/seed}/$p/out/change_$k/patch.diff ] && [ ! -f ${SEEDROOT:-/tmp/seed}/$p/out/change_$k/confirm.json ] && echo "$p $k"; done; done | xargs -P 6 -L 1 /verif/tools/confirm_seed.sh > /tmp/confirm_$$.log 2>&1
 echo done
